@@ -4,35 +4,88 @@ COQ_TARGETS = ["Props/C13.vo"]
 AREA = "execclient"
 EXTRACT_V = "ExecClient/Extract.v"
 GO_CMD = "hx-stream"
-NO_MODEL_RUNS = ("packx",)
+NO_MODEL_RUNS = ("packx",)   # sort.Slice on long unordered slices is not stable: only the monitor applies
 PARALLEL = 8
-RUN_TIMEOUT = 900
-RULE = "tbd"
-TRUSTED_BASE = []
-ASSUMPTIONS = []
-TECHNIQUE = "tbd"
-LEVEL_TEXT = "tbd"
-LEVEL_NOTE = "tbd"
+RUN_TIMEOUT = 1200
+RULE = ("one case = a chain (logs per block with removed flags, up to 38 logs in a block), follow distance, batch "
+        "size, start block and an environment schedule (subscribe ok/fail, heads - increasing, repeated, older, "
+        "below the follow distance - each with an optional failure of its k-th eth_getLogs call by node error / "
+        "connection cut / context cancellation, subscription error, connection drop while idle, failing dials, "
+        "cancellation), run as EventSyncer.SyncOngoing, SyncHistory, or SyncHistory followed by SyncOngoing; plus "
+        "PackLogs on explicit lists; non-trivial = the case injects at least one failure (SUBFAIL / SUBERR / DROP / "
+        "a HEAD or HIST with a failing eth_getLogs call); distinct by operation lines")
+TRUSTED_BASE = [
+    "modelled, not verified: eth/executionclient/{execution_client.go (StreamLogs, streamLogsToChan, "
+    "fetchLogsInBatches, FetchHistoricalLogs), logs.go (PackLogs)}, eth/eventsyncer/event_syncer.go (SyncHistory, "
+    "SyncOngoing); the 12 lines of cli/operator/node.go that pick SyncOngoing's start block are re-implemented in the driver",
+    "fake execution node (go-ethereum rpc.Server over websocket on httptest, listener wrapper that cuts connections); "
+    "no hook in /repo is needed: the driver uses the public options (WithMetrics, WithLogger with a fatal hook that "
+    "turns logger.Fatal into Goexit, reconnection interval 1 ms)",
+    "go-ethereum v1.13.5 rpc/ethclient (websocket client, subscription forwarding) and Go's sort.Slice",
+]
+ASSUMPTIONS = [
+    "eth_getLogs returns the logs of the requested range in (block, log index) order with non-decreasing transaction "
+    "index inside a block (what execution nodes do); on such input PackLogs' sort moves nothing, which relies on "
+    "sort.Slice leaving an already ordered slice untouched (true for Go 1.19-1.23 pdqsort, not promised by its "
+    "documentation). On unordered input of more than 12 logs sort.Slice does reorder logs of one transaction "
+    "(counter pack_log_index_order_not_restored; hardening patch work/C13-packlogs-stable.patch)",
+    "the chain below head - follow distance does not change (no reorg deeper than the follow distance)",
+    "block numbers stay below 2^64 - batch size, so fromBlock + logBatchSize - 1 and the loop increment do not wrap "
+    "(the model computes in unbounded N; C13_nothing_beyond_heads bounds every block number by the highest head - follow)",
+    "logBatchSize >= 1 (0 makes fetchLogsInBatches loop forever)",
+    "scheduling: the next event is injected only when the client is quiescent (blocked in eth_subscribe, back in the "
+    "select of streamLogsToChan as signalled by its last metrics call, or terminated); a head that arrives while the "
+    "client is still fetching for the previous one is not exercised - streamLogsToChan handles heads strictly one "
+    "after the other from an unbuffered channel, so such a head is seen after the fetch, which is a schedule the "
+    "model covers",
+    "ExecutionClient.Close() and a context cancelled during reconnect are not modelled (no delivery follows either)",
+]
+TECHNIQUE = ("Coq proof over all chains, configurations and environment schedules of an executable model of the stream "
+             "cursor logic + differential correspondence of the real ExecutionClient/EventSyncer against a scripted "
+             "in-process execution node (exhaustive failure placement over short head sequences, random schedules)")
+LEVEL_TEXT = ("Machine-checked theorems about a Gallina model of StreamLogs/streamLogsToChan/fetchLogsInBatches/PackLogs/"
+              "FetchHistoricalLogs (and SyncHistory followed by SyncOngoing): for every chain, start block, follow "
+              "distance, batch size >= 1 and every schedule of subscription failures, fetch failures, connection drops, "
+              "cancellations and heads, the delivered stream minus its empty batch markers is exactly the list of the "
+              "chain's blocks with non-removed logs from the start block up to the cursor, each once, in increasing "
+              "order, each with exactly its logs; markers are upper ends of log-free eth_getLogs ranges; nothing lies "
+              "beyond the highest head - follow; whenever the client is idle after head h the cursor is past h - follow. "
+              "The cursor logic before the fix dfd84eefb is kept as a second model and refuted by vm_compute witnesses. "
+              "The model is tied to the code by running both on the same schedules and diffing eth_getLogs ranges, "
+              "delivered entries, metrics values and the client's state (subscribing / idle / done / fatal) after every "
+              "event. Proof is the right level because a lost block needs a failure at one particular moment of one "
+              "particular batch; the property quantifies over all placements.")
+LEVEL_NOTE = ("Trusted: Coq kernel + vm_compute, extraction (ExtrOcamlBasic), OCaml/Go drivers, the fake node, go-ethereum's "
+              "client, the quiescence protocol of the driver (events are not injected while the client is busy). "
+              "Liveness is outside the statement: go-ethereum v1.13.5 can leave an eth_getLogs call hanging when the "
+              "connection dies right after the request was written, and FilterLogs has no timeout; the driver re-runs a "
+              "case in which this third-party race shows (counter rerun_after_client_library_hang).")
 
 
 def runs(tier, seed):
     if tier == "thorough":
-        r = [("exhaustive%d" % i, ["exhaustive", "-heads", "5", "-shard", "%d/16" % i]) for i in range(16)]
-        r += [("gen%d" % i, ["gen", "-seed", str(seed * 1000 + i), "-n", "6000"]) for i in range(12)]
-        r += [("pack", ["pack", "-seed", str(seed), "-n", "20000"]), ("packx", ["packx", "-seed", str(seed), "-n", "5000"])]
+        r = [("exhaustive%d" % i, ["exhaustive", "-heads", "5", "-shard", "%d/24" % i]) for i in range(24)]
+        r += [("gen%d" % i, ["gen", "-seed", str(seed * 1000 + i), "-n", "8000"]) for i in range(12)]
+        r += [("pack", ["pack", "-seed", str(seed), "-n", "30000"]), ("packx", ["packx", "-seed", str(seed), "-n", "10000"])]
         return r
     r = [("exhaustive%d" % i, ["exhaustive", "-heads", "3", "-shard", "%d/4" % i]) for i in range(4)]
     r += [("gen%d" % i, ["gen", "-seed", str(seed * 100 + i), "-n", "500"]) for i in range(3)]
-    r += [("pack", ["pack", "-seed", str(seed), "-n", "2000"]), ("packx", ["packx", "-seed", str(seed), "-n", "500"])]
+    r += [("pack", ["pack", "-seed", str(seed), "-n", "3000"]), ("packx", ["packx", "-seed", str(seed), "-n", "1000"])]
     return r
 
 
 def search_runs(tier, seed):
-    return [("gen%d" % i, ["gen", "-seed", str(seed * 7919 + i), "-n", "1500"]) for i in range(4)]
+    return [("gen%d" % i, ["gen", "-seed", str(seed * 7919 + i), "-n", "1500"]) for i in range(4)] + \
+           [("exhaustive", ["exhaustive", "-heads", "4", "-shard", "0/8"])]
 
 
 def nontrivial(case):
-    return any(l.startswith(("SUBERR", "DROP", "SUBFAIL")) or (l.startswith(("HEAD", "HIST")) and l.split()[-1] in ("err", "drop", "cancel")) for l in case.lines)
+    for l in case.lines:
+        if l.startswith(("SUBERR", "DROP", "SUBFAIL")):
+            return True
+        if l.startswith(("HEAD", "HIST")) and l.split()[-1] in ("err", "drop", "cancel"):
+            return True
+    return False
 
 
 def matches_known(finding, case):
